@@ -26,6 +26,8 @@ def run(chk):
     r04f(chk)
     r04g(chk)
     r04h(chk, thorough=chk.tier == 'thorough')
+    r04i(chk, thorough=chk.tier == 'thorough')
+    r04j(chk, thorough=chk.tier == 'thorough')
 
 
 def _skip_calls(fn):
@@ -575,3 +577,211 @@ def _top_level_block(seq):
         elif v in (')', ']', '}'):
             d -= 1
     return False
+
+
+def r04i(chk, rid='R04.i', thorough=False):
+    chk.rule(rid, 'statement skipping, decided by evaluation: Base._tokensupto2 in its default mode (the one every error path and every statement callback uses) is evaluated on every statement made of a start token (a name, a function token or an opening bracket), a balanced run of names, ";" inside brackets, (), [], {} and function tokens, and an end - ";" or a balanced {...} block - followed by the tokens of the next statement: it returns exactly the tokens of the statement and leaves the next statement in the token source; with separateEnd the end token is split off; an EOF token ends it')
+    chk.assume('R04.i: tokens are (type, value, line, col) tuples; Base._prods.FUNCTION is the FUNCTION type name; sequences up to a length bound with nesting depth 2 exercise every counter and every order of opening and closing')
+    from sa.absint import Evaluator, Raised, Record
+
+    m = chk.repo.mod(UTIL)
+    fn = m.get('Base._tokensupto2')
+    me = Record(_tokenvalue=lambda tok, normalize=False: tok[1] if tok else None, _type=lambda tok: tok[0] if tok else None)
+    intr = {'Base': Record(_prods=Record(FUNCTION='FUNCTION'))}
+    maxlen = 5 if thorough else 4
+    rest = [_tok('x'), ('CHAR', '{', 1, 1), ('CHAR', '}', 1, 1)]
+    closing = {'(': ')', '[': ']', '{': '}', 'f(': ')'}
+    cases = 0
+    bad = {}
+    for start in ('x', 'f(', '(', '[', '{'):
+        for plen in range(0, maxlen + 1):
+            for prelude in _balanced_exact(2, plen):
+                if start in closing:
+                    # the start token opens a bracket: the statement is that bracket, closed, then the rest of the prelude rules apply
+                    bodies = [(start,) + prelude + (closing[start],)]
+                    if start == '{':
+                        ends = [()]  # a block is a complete statement
+                    else:
+                        ends = [(';',)]
+                else:
+                    bodies = [(start,) + prelude]
+                    ends = [(';',)] + [('{',) + b + ('}',) for blen in range(0, maxlen - plen) for b in _balanced_exact(2, blen)]
+                for body in bodies:
+                    inner = body[1:-1] if start in closing else body[1:]
+                    if start not in closing and (';' in _top_level(inner) or _top_level_block(inner)):
+                        continue
+                    if start == '{' and False:
+                        continue
+                    for end in ends:
+                        stmt = body + end
+                        toks = [_tok(v) for v in stmt]
+                        stream = iter(toks[1:] + rest)
+                        got = Evaluator(fn, intrinsics=intr, module=m, cls='Base').run(self=me, tokenizer=stream, starttoken=toks[0])
+                        left = list(stream)
+                        cases += 1
+                        if isinstance(got, Raised) or got != toks or left != rest:
+                            cls = 'start ' + start
+                            bad.setdefault(cls, []).append((' '.join(stmt), repr(got) if isinstance(got, Raised) else f'takes {len(got)} of {len(toks)} tokens'))
+    if cases < 400:
+        raise AnalysisError(f'only {cases} statements enumerated')
+    chk.extra['skipped_statements'] = cases
+    for start in ('x', 'f(', '(', '[', '{'):
+        b = bad.get('start ' + start, [])
+        chk.ob(rid, UTIL, 'Base._tokensupto2', f'every balanced statement that starts with `{start}` is consumed exactly', not b,
+               '; '.join(f'`{s}`: {w}' for s, w in b[:3]) + f' ({len(b)} statements): the statements behind a damaged one are swallowed, or its tail is parsed as a new statement')
+    # separateEnd and EOF
+    toks = [_tok(v) for v in ('x', '(', ';', ')', ';')]
+    got = Evaluator(fn, intrinsics=intr, module=m, cls='Base').run(self=me, tokenizer=iter(toks[1:] + rest), starttoken=toks[0], separateEnd=True)
+    chk.ob(rid, UTIL, 'Base._tokensupto2', 'separateEnd splits the end token off', got == (toks[:-1], toks[-1]), f'{got!r}')
+    eof = ('EOF', '', 1, 1)
+    toks = [_tok(v) for v in ('x', '(', 'x')]
+    stream = iter(toks[1:] + [eof] + rest)
+    got = Evaluator(fn, intrinsics=intr, module=m, cls='Base').run(self=me, tokenizer=stream, starttoken=toks[0])
+    chk.ob(rid, UTIL, 'Base._tokensupto2', 'an EOF token ends the statement at any depth and is handed on', got == toks + [eof], f'{got!r}')
+
+
+DECL = 'cssutils/css/cssstyledeclaration.py'
+
+
+def bound_method(repo, rel, qual, me, intrinsics=None):
+    """`qual` of module `rel` as a callable that evaluates its syntax tree with self = me
+    (a modelled exception propagates into the evaluation that calls it)."""
+    from sa.absint import Evaluator
+
+    m = repo.mod(rel)
+    fn = m.get(qual)
+    ev = Evaluator(fn, intrinsics=intrinsics or {}, module=m, cls=qual.split('.')[0])
+    return lambda *a, **k: ev.call_function(fn, a, k, bound_self=me)
+
+
+def _r04j_job(args):
+    root, start, maxlen = args
+    import itertools
+
+    from sa.absint import Evaluator, Obj, Raised, Record
+    from sa.core import Repo
+
+    repo = Repo(root)
+    m = repo.mod(DECL)
+    fn = m.get('CSSStyleDeclaration._setCssText')
+    log = Record(error=lambda *a, **k: None, warn=lambda *a, **k: None, info=lambda *a, **k: None, debug=lambda *a, **k: None)
+
+    class Prop(Obj):
+        def __init__(self, *a, **k):
+            Obj.__init__(self, tokens=None, args=(a, k), _parent=None)
+
+        @property
+        def wellformed(self):
+            t = [x for x in (self.tokens or []) if x[0] != 'S']
+            return len(t) == 3 and t[0][0] == 'IDENT' and t[1][1] == ':' and t[2][0] == 'IDENT'
+
+        @property
+        def cssText(self):
+            return self.tokens
+
+        @cssText.setter
+        def cssText(self, v):
+            object.__setattr__(self, 'tokens', list(v))
+
+    class Seq(list):
+        def append(self, val, typ=None, line=None, col=None):  # noqa: A003
+            list.append(self, Record(value=val, type=typ))
+
+    def tk(v):
+        return ('FUNCTION' if v == 'f(' else 'IDENT' if v.isalnum() else 'CHAR', v, 1, 1)
+
+    good1 = [tk('a'), tk(':'), tk('x1')]
+    good2 = [tk('b'), tk(':'), tk('x2')]
+    semi = tk(';')
+    cases = 0
+    bad = []
+    closing = {'(': ')', '[': ']', '{': '}', 'f(': ')'}
+    for n in range(0, maxlen + 1):
+        for run in _damage_runs(n):
+            if start in closing:
+                # close the bracket the start token opens somewhere in the run: put the closer at every position
+                variants = [run[:i] + (closing[start],) + run[i:] for i in range(len(run) + 1) if _is_balanced(run[:i])]
+            else:
+                variants = [run]
+            if n <= 1:
+                # tails that look like a declaration of their own behind a separator the skipping might stop at
+                variants = variants + [v + t for v in variants for t in (('!', 'y', ':', 'y'), (':', 'y', ':', 'y'), ('y', 'y', ':', 'y'))]
+            for body in variants:
+                damaged = (start,) + body
+                if ';' in _top_level(damaged):
+                    continue
+                if start == 'x' and damaged[1:2] == (':',) and len(damaged) == 3 and damaged[2].isalnum():
+                    continue  # a valid declaration
+                toks = good1 + [semi] + [tk(v) for v in damaged] + [semi] + good2
+                me = Obj(_checkReadonly=lambda: None, _tokenvalue=lambda tok, normalize=False: tok[1] if tok else None, _type=lambda tok: tok[0] if tok else None,
+                         _valuestr=lambda t: 'text', _log=log, _tempSeq=lambda: Seq(), _seq=None)
+                me._tokenize2 = lambda text_, toks=toks: iter(toks)
+                result = []
+                me._setSeq = lambda s: result.append(s)
+                intr_util = {'Base': Record(_prods=Record(FUNCTION='FUNCTION')), 'chain': itertools.chain,
+                             'cssutils': Record(css=Record(CSSUnknownRule=lambda *a, **k: Obj(wellformed=False, cssText=None), CSSComment=lambda *a, **k: 'COMMENT'))}
+                me._tokensupto2 = bound_method(repo, UTIL, 'Base._tokensupto2', me, intr_util)
+                me._adddefaultproductions = bound_method(repo, UTIL, 'Base._adddefaultproductions', me, intr_util)
+                me._parse = bound_method(repo, UTIL, 'Base._parse', me, intr_util)
+                res = Evaluator(fn, intrinsics={'Property': Prop, 'self._log.error': log.error, 'self._log.info': log.info}, module=m, cls='CSSStyleDeclaration').run(self=me, cssText='text')
+                cases += 1
+                got = None
+                if not isinstance(res, Raised) and result:
+                    got = [it.value.tokens for it in result[-1] if isinstance(it.value, Prop)]
+                if got != [good1, good2]:
+                    names = [' '.join(t[1] for t in p_) for p_ in (got or [])]
+                    bad.append((' '.join(damaged), repr(res) if isinstance(res, Raised) else f'properties {names}'))
+    return start, cases, bad
+
+
+def r04j(chk, rid='R04.j', thorough=False):
+    chk.rule(rid, 'containment inside a declaration block, decided by evaluation across two modules: CSSStyleDeclaration._setCssText is evaluated together with the real parse loop (Base._parse with its default productions) and the real bracket counter (Base._tokensupto2), all on their syntax trees, on token streams `a:1; <damaged>; b:2` where the damaged declaration starts with any of a name, ":", "!", an opening bracket of each kind or a function token, continues with a balanced run (brackets of all kinds, ";" inside brackets, "!", ":" and names; short runs also with a tail that looks like a declaration of its own) and ends at its top-level ";": the block ends up with exactly the properties a and b, each with exactly its own tokens')
+    chk.assume('R04.j: Property is a model that is well-formed iff its tokens are name ":" name; the tokenizer is a token list; logging is a stub; damaged declarations up to a length bound with nesting depth 2')
+    import multiprocessing as mp
+
+    starts = ('x', ':', '!', '(', '[', '{', 'f(')
+    maxlen = 4 if thorough else 3
+    ctx = mp.get_context('fork')
+    with ctx.Pool(len(starts)) as pool:
+        res = pool.map(_r04j_job, [(chk.repo.root, st, maxlen) for st in starts])
+    cases = sum(c for _, c, _ in res)
+    if cases < 300:
+        raise AnalysisError(f'only {cases} damaged declarations enumerated')
+    chk.extra['damaged_declarations'] = cases
+    for start, _, b in res:
+        chk.ob(rid, DECL, 'CSSStyleDeclaration._setCssText', f'a damaged declaration that starts with `{start}` costs only itself', not b,
+               '; '.join(f'`a:x1; {d}; b:x2` gives {w}' for d, w in b[:3]) + f' ({len(b)} cases): a declaration behind the damage is lost, or part of the damaged text becomes a declaration')
+
+
+def _is_balanced(seq):
+    st = []
+    for v in seq:
+        if v in ('(', '[', '{', 'f('):
+            st.append({'(': ')', '[': ']', '{': '}', 'f(': ')'}[v])
+        elif v in (')', ']', '}'):
+            if not st or st.pop() != v:
+                return False
+    return not st
+
+
+_RUNS = {}
+
+
+def _damage_runs(n, depth=2):
+    """Balanced runs of exactly n tokens over names, ':', '!', ';' and the bracket kinds."""
+    key = (n, depth)
+    if key not in _RUNS:
+        if n == 0:
+            _RUNS[key] = [()]
+        else:
+            cur = []
+            for first in ('y', ':', '!', ';'):
+                cur += [(first,) + r for r in _damage_runs(n - 1, depth)]
+            if depth > 0:
+                for o, c in (('(', ')'), ('[', ']'), ('{', '}'), ('f(', ')')):
+                    for k in range(0, n - 1):
+                        for inner in _damage_runs(k, depth - 1):
+                            for rest in _damage_runs(n - 2 - k, depth):
+                                cur.append((o,) + inner + (c,) + rest)
+            _RUNS[key] = cur
+    return _RUNS[key]
